@@ -325,6 +325,15 @@ def execute(plan: dict, ctx: dict) -> dict:
                 last["outs"] = outs
         return out
 
+    if not lifecycle:
+        try:
+            zoo.call_model(model, x)
+        except Exception as e:
+            # a model that cannot be applied when fresh (the ill-typed architectures of known_findings.json) is C20's
+            # business; there is nothing to round-trip
+            bump("discarded_model_raises_when_fresh")
+            world.log.add("discard", f"{type(e).__name__}: {str(e)[:200]}")
+            return _result(world, 0, counters, kinds, violations, discarded=True)
     if lifecycle:
         if check_conformance(model, x, "fresh") is None:
             # the fresh model cannot be applied at all: no later event is meaningful
